@@ -15,7 +15,7 @@ from streamflow.workflow.token import ListToken, ObjectToken, TerminationToken
 
 from sfv.framework import Ctx, Property
 from sfv.rt import stepdrive as sd
-from sfv.rt.loop import run_controlled
+from sfv.rt.loop_safe import run_controlled
 from sfv.rt.sfctx import make_context
 from sfv.translate import gatherguards, tagguards
 
